@@ -13,7 +13,8 @@ def stores : List (List Nat) :=
    List.replicate 32 0xFFFFFFFFFFFFFFFF,
    (List.range 32).map (fun i => if i % 5 == 3 then 0 else (i * 0x123456789ABCDEF1 + 77) % 2 ^ 64),
    (List.range 32).map (fun i => if i % 2 == 0 then 0x8000000000000001 else 0),
-   [1] ++ List.replicate 30 0 ++ [0x8000000000000000]]
+   [1] ++ List.replicate 30 0 ++ [0x8000000000000000],
+   List.replicate 32 1]
 
 def opOf (ws : List Nat) (n : Nat) : String :=
   s!"bits st:{",".intercalate (ws.map (hexN 16))} p:{n}"
